@@ -1,47 +1,65 @@
 (* Correspondence for C02: the model of evolve2d (memoize=False) against what /repo returned on the
-   same inputs: the returned array (values; the nested lists carry the shape) and the complete call
+   same inputs: the returned array (values; the nested lists carry the shape; the dtype by name) and the complete call
    log of the rule: block contents, mask pattern (np.ma.getmaskarray), (row, col) and t. *)
 From CPL Require Import Model.Base Model.Rules Model.Engine Model.Evolve2D Model.Evolve2DChecked.
 Local Open Scope Z_scope.
 
+(* the rule's return value is value/scale (scale = 1: an integer, possibly wrapped as a float or a NumPy scalar of
+   the same value; scale = 4: a Python float with two binary places).  2D stores by SCALAR assignment
+   array[t][row][col] = v, which truncates a float towards zero when the automaton has an integer dtype. *)
+Definition store_of (scale : Z) : Z -> Z := if scale =? 1 then store_id else fun q => Z.quot q scale.
+
+(* the dtype of an array, by name; DOther = anything else (never equal to anything) *)
+Inductive dtype := DBool | DInt32 | DInt64 | DUInt8 | DUInt64 | DFloat64 | DOther.
+Definition dtype_eqb (a b : dtype) : bool :=
+  match a, b with
+  | DBool, DBool | DInt32, DInt32 | DInt64, DInt64 | DUInt8, DUInt8 | DUInt64, DUInt64 | DFloat64, DFloat64 => true
+  | _, _ => false
+  end.
+
 (* one observed call: block values, mask, (row, col), t *)
 Definition call_obs := (list (list Z) * list (list bool) * (nat * nat) * nat)%type.
 
+(* returned grids, call log, dtype of the returned array *)
+Definition outcome := (list grid * list call_obs * dtype)%type.
+
 Inductive case :=
-(* evolve2d(hist, timesteps=T, Logged2(rule), r, neighbourhood, memoize=False) *)
-| CEvolve2D (ty : nbhd_type) (r : nat) (hist : list grid) (T : nat) (rule : rule_spec)
-            (obs : res (list grid * list call_obs))
+(* evolve2d(hist as an array of dtype dt, timesteps=T, Logged2(rule / scale), r, neighbourhood, memoize=False) *)
+| CEvolve2D (ty : nbhd_type) (r : nat) (scale : Z) (dt : dtype) (hist : list grid) (T : nat) (rule : rule_spec)
+            (obs : res outcome)
 (* evolve2d(hist, timesteps=lambda ca, t: t < k, ...) *)
-| CEvolve2DDyn (ty : nbhd_type) (r : nat) (hist : list grid) (k : nat) (rule : rule_spec)
-               (obs : res (list grid * list call_obs)).
+| CEvolve2DDyn (ty : nbhd_type) (r : nat) (scale : Z) (dt : dtype) (hist : list grid) (k : nat) (rule : rule_spec)
+               (obs : res outcome).
 
 Definition flat_call (c : call2) : call_obs :=
   let '(n, rc, t) := c in (nb_vals n, nb_mask n, rc, t).
 
-(* what the model computes: the returned grids and the call log *)
-Definition model_out (c : case) : res (list grid * list call_obs) :=
+(* what the model computes: the returned grids, the call log, and the dtype (that of the automaton passed in) *)
+Definition model_out (c : case) : res outcome :=
   match c with
-  | CEvolve2D ty r hist T rule _ =>
-      bind (evolve2d_checked (logged2 (spec_rule2 rule)) store_id r ty (0%nat, []) hist T)
-           (fun out => let '((_, lg), grids) := out in Ok (grids, map flat_call lg))
-  | CEvolve2DDyn ty r hist k rule _ =>
-      match evolve2d_plain_dynamic (logged2 (spec_rule2 rule)) store_id (pred_lt k) r ty (S k) tt
+  | CEvolve2D ty r scale dt hist T rule _ =>
+      bind (evolve2d_checked (logged2 (spec_rule2 rule)) (store_of scale) r ty (0%nat, []) hist T)
+           (fun out => let '((_, lg), grids) := out in Ok (grids, map flat_call lg, dt))
+  | CEvolve2DDyn ty r scale dt hist k rule _ =>
+      match evolve2d_plain_dynamic (logged2 (spec_rule2 rule)) (store_of scale) (pred_lt k) r ty (S k) tt
                                    (0%nat, []) hist with
-      | Some (_, (_, lg), grids, _) => Ok (grids, map flat_call lg)
+      | Some (_, (_, lg), grids, _) => Ok (grids, map flat_call lg, dt)
       | None => Raise OtherError
       end
   end.
 
-Definition observed (c : case) : res (list grid * list call_obs) :=
-  match c with CEvolve2D _ _ _ _ _ o | CEvolve2DDyn _ _ _ _ _ o => o end.
+Definition observed (c : case) : res outcome :=
+  match c with CEvolve2D _ _ _ _ _ _ _ o | CEvolve2DDyn _ _ _ _ _ _ _ o => o end.
 
 Definition bgrid_eqb := list_eqb (list_eqb Bool.eqb).
 Definition call_eqb (a b : call_obs) : bool :=
   let '(v1, m1, (r1, c1), t1) := a in
   let '(v2, m2, (r2, c2), t2) := b in
   zgrid_eqb v1 v2 && bgrid_eqb m1 m2 && Nat.eqb r1 r2 && Nat.eqb c1 c2 && Nat.eqb t1 t2.
-Definition out_eqb (a b : list grid * list call_obs) : bool :=
-  zhist_eqb (fst a) (fst b) && list_eqb call_eqb (snd a) (snd b).
+Definition out_eqb (a b : outcome) : bool :=
+  let '(g1, l1, d1) := a in
+  let '(g2, l2, d2) := b in
+  zhist_eqb g1 g2 && list_eqb call_eqb l1 l2 && dtype_eqb d1 d2.
 
 (* no exception class is named by the property (and none occurs inside its domain): any exception on
    both sides agrees *)
